@@ -136,6 +136,9 @@ fn case<const N: usize>(rng: &mut Rng, rep: &mut Report, cfg: &GenCfg) {
     }
 }
 
+/// cases of the Miri slice the thorough tier asks for (measured: see NOTES.md)
+const MIRI_CASES: usize = 30;
+
 fn canaries() {
     let bad = |s: &str| -> ! { eprintln!("HARNESS-ERROR C08 self-check failed: {s}"); std::process::exit(3) };
     if let Err(e) = maps::self_test(8, 40) { bad(&e); }
@@ -164,7 +167,27 @@ fn canaries() {
     if ref_reorder(&m2, &[2, 1, 0]) != Err(RefErr::Missing("field")) { bad("reference does not refuse a field without new first name"); }
 }
 
+/// `c08 --miri-slice <seed> <cases> <max seconds>`: single-threaded, no files. The ordinary case function (every permutation of
+/// the namespaces through the real `reorder`, reference comparison, inverse law, key invariant) on small sets in which a third of
+/// the simple names are hostile (NUL, boundary / supplementary code points, descriptor letters, names of 40..1300 bytes); every
+/// fourth case carries lone surrogates (U+FFFD of the model = a lone surrogate in the tree), which reach the descriptor
+/// translation (`map_desc` slices `L<name>;` out of descriptors and puns the slice into a class-name type).
+fn miri_slice(seed: u64, cases: usize, max_s: u64) -> i32 {
+    // a reorder evaluation (real call, reference, two conversions, inverse) of a 2-class set costs 3..8 s of Miri time
+    let small = GenCfg { max_classes: 2, max_fields: 1, max_params: 1, ..maps::slice::small(GenCfg::default()) };
+    let full = GenCfg { fully_named: true, comment_chance: (1, 3), ..small.clone() };
+    let partial = GenCfg { absent: (1, 10), ..small.clone() };
+    let loose = GenCfg { unique_per_namespace: false, fully_named: true, ..small.clone() };
+    let one_class = GenCfg { max_classes: 1, ..full.clone() };
+    maps::slice::run("C08", seed, cases, max_s, 4, |rng, rep, i, _| {
+        let cfg = match i % 7 { 0..=3 => &full, 4 | 5 => &partial, _ => &loose };
+        // N = 4 means 24 reorder calls (+ inverses) per case: one case in twelve, on a set of at most one class
+        match i % 12 { 5 => case::<4>(rng, rep, &one_class), x if x % 2 == 0 => case::<2>(rng, rep, cfg), _ => case::<3>(rng, rep, cfg) }
+    })
+}
+
 fn main() {
+    if let Some((seed, n, max_s)) = common::miri::slice_args() { std::process::exit(miri_slice(seed, n, max_s)); }
     let mut ctx = Ctx::from_args("C08", 40, 420);
     let replay = load_replay(&mut ctx);
     canaries();
@@ -189,6 +212,11 @@ fn main() {
             "outcome.ok.parameter_without_new_first_name", "descriptor.mentions_mapped_class", "descriptor.mentions_unmapped_class", "descriptor.array", "inverse.checked", "nontrivial.descriptor_translated"] {
             meta.oblige(format!("at least one case with {k}"), rep.get(k) > 0);
         }
+        if ctx.tier == Tier::Thorough {
+            let r = common::miri::run_slice(&ctx, "c08", env!("CARGO_MANIFEST_DIR"), MIRI_CASES, 170, 285);
+            if let Some(line) = r.ub { rep.cur = ("miri".into(), 0); rep.violation(format!("miri: {line}"), json!({"how": format!("cargo +nightly miri run --offline -p c08 -- --miri-slice <seed> {MIRI_CASES} 170"), "seed": ctx.seed as i64, "status": r.status})); }
+            meta.extra.insert("miri_slice".into(), json!(r.status));
+        } else { meta.extra.insert("miri_slice".into(), json!("not run in the quick tier")); }
     }
     std::process::exit(finish(&ctx, rep, meta));
 }
